@@ -136,6 +136,68 @@ func checkC13(c *Ctx) {
 	// ---- Q3
 	c13Placeholders(c, te)
 
+	// ---- Q5: the printed form of a rule (String()) is lossy: list values are joined with "," without quotes, the embedded
+	// Rego is not printed at all. It may order operands (sorting is total on the text) but must never decide identity:
+	// comparing two printed forms for equality, or using one as a map key, lets a character inside a value (a comma)
+	// merge or drop constraints.
+	r.Rule("C13.Q5", "the lossy printed form of a rule never decides equality (no ==, != or map key on Rule.String())", 1)
+	q5 := 0
+	uses := 0
+	isRuleString := func(v ssa.Value) bool {
+		call, ok := v.(*ssa.Call)
+		if !ok {
+			return false
+		}
+		cc := call.Call
+		if cc.IsInvoke() {
+			return cc.Method.Name() == "String" && strings.Contains(cc.Value.Type().String(), "/parser/profile.")
+		}
+		if f := cc.StaticCallee(); f != nil && f.Name() == "String" && f.Signature.Recv() != nil {
+			return strings.Contains(f.Signature.Recv().Type().String(), "/parser/profile.")
+		}
+		return false
+	}
+	for _, fn := range p.ModuleFuncs() {
+		rel := RelPkg(fn)
+		if rel != "internal/generator" && rel != "internal/validator" && rel != "internal/parser/profile" {
+			continue
+		}
+		if strings.HasSuffix(p.Fset.Position(fn.Pos()).Filename, "_test.go") || strings.HasSuffix(p.Fset.Position(fn.Pos()).Filename, "test_utils.go") {
+			continue
+		}
+		// the ordering itself (Less / Compare methods) compares printed forms with < and >: allowed
+		for _, b := range fn.Blocks {
+			for _, ins := range b.Instrs {
+				switch x := ins.(type) {
+				case *ssa.BinOp:
+					if x.Op != token.EQL && x.Op != token.NEQ {
+						continue
+					}
+					if isRuleString(x.X) || isRuleString(x.Y) {
+						uses++
+						q5++
+						r.Bad("C13.Q5", FuncKey(fn)+"#string-equality", p.Pos(x.Pos()), "two rules are compared through their printed form: the form joins list values with commas and omits embedded Rego, so different constraints can print alike and be taken for the same")
+					}
+				case *ssa.MapUpdate:
+					if isRuleString(x.Key) {
+						uses++
+						q5++
+						r.Bad("C13.Q5", FuncKey(fn)+"#string-key", p.Pos(x.Pos()), "the printed form of a rule is used as a map key: different constraints that print alike collapse into one entry")
+					}
+				case *ssa.Lookup:
+					if isRuleString(x.Index) {
+						uses++
+						q5++
+						r.Bad("C13.Q5", FuncKey(fn)+"#string-key", p.Pos(x.Pos()), "the printed form of a rule is used as a map key: different constraints that print alike collapse into one entry")
+					}
+				}
+			}
+		}
+	}
+	if q5 == 0 {
+		r.OK("C13.Q5", "census", "", "no equality test or map key on the printed form of a rule in the parser, generator or validator")
+	}
+
 	// ---- Q4: placeholder substitution on tainted text
 	n4 := 0
 	for _, fn := range funcs {
